@@ -332,6 +332,8 @@ def gen_slab(rng, i):
         m = {'model': 'plate model', 'plate velocity': wg.num(rng, 0.01, 0.12)}
         if rng.random() < 0.5:
             m['max distance slab top'] = thick
+        if rng.random() < 0.5:
+            m['min distance slab top'] = wg.R(rng.uniform(0.05, 0.5) * thick)      # the model covers the lower part of the slab only
         if rng.random() < 0.4:
             m['adiabatic heating'] = rng.random() < 0.5
         above = 0.0
